@@ -98,6 +98,27 @@ def termmon_scenarios(ctx, maxlen, quick):
                 q = True if variant == "settled" else (rng.random() < 0.3)
                 steps.append({"a": a, "h": x if a != "sig" else "", "s": x if a == "sig" else "", "quiet": q})
             out.append({"id": "tm%d%s" % (i, variant[0]), "kind": "termmon", "steps": steps, "src": "enumeration"})
+    # REAL signals (kill(2) on the test process, delivered by os/signal to the channel newTermMonitor registered), also
+    # while main is still busy with the PT configuration and not waiting yet
+    def st(a, x=""):
+        return {"a": a, "h": x if a in ("start", "finish") else "", "s": x if a in ("sig", "ossig") else "", "quiet": True}
+    k = 0
+    for pre in ([], [st("start", "h1")], [st("start", "h1"), st("start", "h2")]):
+        for sigs in (["INT"], ["TERM"], ["INT", "TERM"], ["INT", "INT"]):
+            for early in (True, False):
+                steps = ([st("config")] if early else []) + list(pre)
+                if early:
+                    steps += [st("ossig", sigs[0]), st("configdone")]
+                else:
+                    steps += [st("ossig", sigs[0])]
+                steps += [st("finish", p["h"]) for p in pre[:1]]
+                steps += [st("ossig", x) for x in sigs[1:]]
+                steps += [st("finish", p["h"]) for p in pre[1:]]
+                out.append({"id": "tmos%d" % k, "kind": "termmon", "steps": steps, "src": "os-signals"}); k += 1
+            if len(sigs) > 1:
+                # both while main is busy; the handlers (if any) never finish: SIGTERM / a second signal must end it anyway
+                steps = [st("config")] + list(pre) + [st("ossig", x) for x in sigs] + [st("configdone")]
+                out.append({"id": "tmos%d" % k, "kind": "termmon", "steps": steps, "src": "os-signals"}); k += 1
     return out
 
 
@@ -126,7 +147,7 @@ def proxydial_scenarios(ctx):
             p["delay"] = rng.choice([200, 1000])
         return p
     sizes = [0, 1, 2, 7, 8, 9, 100, 1448, 4096, 20000]
-    n = 40 if quick else 400
+    n = 40 if quick else 1200
     for i in range(n):
         proxy = ("socks4a", "http")[i % 2]
         user, pw, havepw = users[(i // 2) % len(users)]
@@ -238,6 +259,9 @@ def run(ctx):
     ctx.tlc_expect_ok("Relay", "Relay_MC.cfg", label="relay exhaustive (safety + liveness)", timeout=1200)
     ctx.tlc_expect_ok("TermMon", "TermMon_intended.cfg", label="termmon exhaustive, intended design (safety + liveness)")
     ctx.tlc_expect_violation("TermMon", "TermMon_asis.cfg", "NeverStuck", workers=1)
+    ctx.tlc_expect_violation("TermMon", "TermMon_unbuffered.cfg", None, workers=1)
+    ctx.tlc_expect_ok("TermMon", "TermMon_prompt.cfg", label="termmon: SIGTERM ends the process without assuming that handlers finish (2 signal slots)")
+    ctx.tlc_expect_violation("TermMon", "TermMon_oneslot.cfg", "TermPrompt", workers=1)
     binary = ctx.go_test_build("obfs4proxy")
     ctx.tlc_expect_ok("Relay", "Relay_stall.cfg", label="relay with back-pressure (write stalls / drains): safety + liveness", timeout=1200)
     ctx.tlc_expect_violation("Relay", "Relay_stall_nosrc.cfg", "NeverWedged", workers=1)
@@ -249,12 +273,17 @@ def run(ctx):
         relay = relay[:400] + stall[:300]
     else:
         relay += stall
-    relay += relay_random(ctx, 100 if quick else 1500)
+    relay += relay_random(ctx, 100 if quick else 5000)
+    for i, (n, kind) in enumerate([(131072, "err"), (131072, "eof"), (1, "err"), (40000, "err")] + ([(300000, "err"), (65536, "eof"), (65537, "err")] if not quick else [])):
+        relay.append({"id": "relaytcp%d" % i, "kind": "relaytcp", "src": "tcp", "steps": [{"a": "produce", "s": "B", "k": "", "n": n, "quiet": False},
+                                                                                         {"a": "end", "s": "B", "k": kind, "n": 0, "quiet": False}]})
     tm = termmon_scenarios(ctx, 5 if quick else 7, quick)
     if quick and len(tm) > 500:
         rng = random.Random(ctx.seed + 5)
+        osig = [t for t in tm if t["src"] == "os-signals"]
+        tm = [t for t in tm if t["src"] != "os-signals"]
         rng.shuffle(tm)
-        tm = tm[:500]
+        tm = tm[:460] + osig
     for name, scen, mod in (("relay", relay, "RelayTrace"), ("termmon", tm, "TermMonTrace")):
         traces = ctx.exec_scenarios(binary, scen, name, testbin="TestVerifC19", shards=12, timeout=1500)
         if len(traces) != len(scen) and not any(t.get("crashed") for t in traces):
@@ -274,7 +303,7 @@ def run(ctx):
                 name, tr["reject"]["at_event_index"], json.dumps(tr["reject"]["event"]), json.dumps(tr["scenario"]["steps"]))
         match = None
         if name == "termmon":
-            match = ctx.devmatcher("TermMonTrace", "TermMonTrace.cfg", [("D5", {"CheckBeforeSelect": "FALSE"})], deque=True)
+            match = ctx.devmatcher("TermMonTrace", "TermMonTrace.cfg", [("D5", {"CheckBeforeSelect": "FALSE"}), ("D11", {"SigBuf": "0"})], deque=True)
         ctx.settle(rejected, reexec, describe, devmatch=match, attempts=3)
     # growth: the real clientHandler / serverHandler on every failure path (Handler.tla), with the real monitor counting
     hcases, _ = ctx.tlc_emit("Handler", "Handler_MC.cfg", tag="HCASE", label="handler life cycle: all kinds x failure points (safety + liveness)", count=True)
